@@ -7,9 +7,9 @@ Same statements as Props/C02_gen.lean, about the defs of `Gen/Curve/Stark_curve.
 every run. Differences of this package's Go code: the doubling formulas carry the a·Z⁴ term (M += ZZ²); the equal-point
 branch of `AddMixed` doubles the receiver; `G1Affine.Add/Sub` go through Jacobian coordinates; `G1Jac.Equal` compares the
 affine forms; there is no `DoubleMixed` / affine `Double`.
-FINDING kept from Props/C02.lean (restated here on the generated def): `g1JacExtended.doubleMixed` (and
-`doubleNegMixed`) add the square of the RECEIVER's stale ZZ instead of a = 1; hence `addMixed` / `subMixed` are proved
-for operands that are not the same point only (`_partial`).
+`g1JacExtended.doubleMixed` (and `doubleNegMixed`) used to add the square of the RECEIVER's stale ZZ instead of a = 1 (a finding
+of this check, repaired in /repo by the `fix:` commit 09230d9): the regenerated def now takes `aCurveCoeff`, and `addMixed` is
+proved for ALL operands when aCurveCoeff = 1.
 -/
 set_option linter.unusedSectionVars false
 set_option linter.unusedVariables false
@@ -71,8 +71,8 @@ theorem g1JacExtended.double_eq (q : g1JacExtended F) :
     (g1JacExtended.double q).1 = .ofT (xyzzDoubleStark q.X q.Y q.ZZ q.ZZZ) := by
   gv_bridge [g1JacExtended.double, g1JacExtended.ofT, xyzzDoubleStark]
 
-theorem g1JacExtended.doubleMixed_eq (p : g1JacExtended F) (a : G1Affine F) :
-    (g1JacExtended.doubleMixed p a).1 = .ofT (xyzzDoubleMixedStark p.ZZ a.X a.Y) := by
+theorem g1JacExtended.doubleMixed_eq (a : G1Affine F) (c : F) :
+    (g1JacExtended.doubleMixed a c).1 = .ofT (xyzzDoubleMixedStark c a.X a.Y) := by
   gv_bridge [g1JacExtended.doubleMixed, g1JacExtended.ofT, xyzzDoubleMixedStark]
 
 theorem g1JacExtended.add_eq (p q : g1JacExtended F) :
@@ -80,9 +80,9 @@ theorem g1JacExtended.add_eq (p q : g1JacExtended F) :
       .ofT (xyzzAddTW (xyzzDoubleStark q.X q.Y q.ZZ q.ZZZ) p.X p.Y p.ZZ p.ZZZ q.X q.Y q.ZZ q.ZZZ) := by
   gv_bridge [g1JacExtended.add, xyzzAddTW, g1JacExtended.double_eq, g1JacExtended.Set, g1JacExtended.ofT, xyzzAddAB, xyzzAdd]
 
-theorem g1JacExtended.addMixed_eq (p : g1JacExtended F) (a : G1Affine F) :
-    (g1JacExtended.addMixed p a).1 =
-      .ofT (xyzzAddMixedTW (xyzzDoubleMixedStark p.ZZ a.X a.Y) p.X p.Y p.ZZ p.ZZZ a.X a.Y) := by
+theorem g1JacExtended.addMixed_eq (p : g1JacExtended F) (a : G1Affine F) (c : F) :
+    (g1JacExtended.addMixed p a c).1 =
+      .ofT (xyzzAddMixedTW (xyzzDoubleMixedStark c a.X a.Y) p.X p.Y p.ZZ p.ZZZ a.X a.Y) := by
   gv_bridge [g1JacExtended.addMixed, xyzzAddMixedTW, g1JacExtended.doubleMixed_eq, G1Affine.IsInfinity, g1JacExtended.ofT,
     xyzzAddMixedPR, xyzzAddMixed]
 
@@ -171,22 +171,17 @@ theorem C02gen_g1JacExtended_add (hc : (2 : F) ≠ 0) {p q : g1JacExtended F} (h
   rw [g1JacExtended.add_eq]
   exact xyzzAddTW_correct hp hq (fun h => h.symm ▸ xyzzDoubleStark_total hc hq)
 
-/-
-The property demands `(g1JacExtended.addMixed p a).1.Rep b (P + Q)` for ALL operands. It does NOT hold for the Go code
-when P = Q ≠ O: that branch calls `doubleMixed`, which is wrong for a = 1 (next theorem). Partial statement: P ≠ Q.
--/
-theorem C02gen_g1JacExtended_addMixed_partial {p : g1JacExtended F} {a : G1Affine F} (hp : p.Rep b P)
-    (ha : a.Rep b Q) (hne : P ≠ Q) : (g1JacExtended.addMixed p a).1.Rep b (P + Q) := by
+/-- `g1JacExtended.addMixed p a aCurveCoeff` with aCurveCoeff = 1, ALL operands (the equal-point branch doubles the affine
+operand with the curve coefficient; before the `fix:` commit 09230d9 only P ≠ Q could be proved) -/
+theorem C02gen_g1JacExtended_addMixed (hc : (2 : F) ≠ 0) {p : g1JacExtended F} {a : G1Affine F} (hp : p.Rep b P)
+    (ha : a.Rep b Q) : (g1JacExtended.addMixed p a 1).1.Rep b (P + Q) := by
   rw [g1JacExtended.addMixed_eq]
-  exact xyzzAddMixedTW_correct hp ha (fun h => absurd h hne)
+  exact xyzzAddMixedTW_correct hp ha (fun h => by subst h; exact xyzzDoubleMixedStark_total hc ha)
 
-/-- FINDING (unexported, used by the bucket method only through addMixed): `g1JacExtended.doubleMixed p a` is the tangent
-rule of the curve with coefficient (p.ZZ)², the receiver's stale ZZ, not of the stark curve (a = 1) -/
-theorem C02gen_g1JacExtended_doubleMixed_wrong_a (p : g1JacExtended F) (a : G1Affine F) (hc : (2 : F) ≠ 0) (hy : a.Y ≠ 0) :
-    XyzzRep (2 * a.Y) (g1JacExtended.doubleMixed p a).1.X (g1JacExtended.doubleMixed p a).1.Y
-      (g1JacExtended.doubleMixed p a).1.ZZ (g1JacExtended.doubleMixed p a).1.ZZZ
-      (tangent (p.ZZ ^ 2) a.X a.Y).1 (tangent (p.ZZ ^ 2) a.X a.Y).2 := by
-  rw [g1JacExtended.doubleMixed_eq]; exact C02_starkDoubleMixed_wrong_a hc hy
+/-- `g1JacExtended.doubleMixed a aCurveCoeff` with aCurveCoeff = 1 doubles the affine operand -/
+theorem C02gen_g1JacExtended_doubleMixed (hc : (2 : F) ≠ 0) {a : G1Affine F} (ha : a.Rep b Q) :
+    (g1JacExtended.doubleMixed a 1).1.Rep b (Q + Q) := by
+  rw [g1JacExtended.doubleMixed_eq]; exact xyzzDoubleMixedStark_total hc ha
 
 theorem C02gen_G1Affine_fromJacExtended (hb : b ≠ 0) {q : g1JacExtended F} (hq : q.Rep b Q) :
     (G1Affine.fromJacExtended q).1.Rep b Q := by
